@@ -11,8 +11,10 @@ PROP = {
     "id": "C17",
     "level": "exploration",
     "technique": "Hypothesis-generated target states (absent / existing TDF / existing non-TDF / existing empty file / directory) x path kind (str / pathlib.Path) x source images x follow-up mutations; oracle: independent parse of newly created files, sha256 of pre-existing targets before/after, sha256 of copy vs. original after mutating either one; invalid inputs (missing path, missing / partial signature) must be refused by every reader",
-    "level_text": ("Exploration over configurations: Tdf.new and Tdf.copy are called against every kind of pre-existing target with both "
-                   "path types; a created file is parsed by the reference reader (signature, version 1, 14 unused slots, offsets 4096, "
+    "level_text": ("Exploration over configurations: Tdf.new and Tdf.copy are called against every kind of pre-existing target (file, empty file, "
+                   "TDF, directory, symlink) and absent targets with similarly named bystander files, with str / Path / relative paths, also from "
+                   "inside an open write context; the whole target directory is hashed before and after (nothing pre-existing may change, nothing "
+                   "but the target may appear); a created file is parsed by the reference reader (signature, version 1, 14 unused slots, offsets 4096, "
                    "sizes 0, nothing after the table); a refused call must raise FileExistsError and leave the target's bytes "
                    "untouched; after a successful copy a generated sequence of mutations is applied to the copy or to the original "
                    "and the other file's hash must not move."),
